@@ -25,7 +25,7 @@ theorem normSq_le (s side : Nat) (h : s ≤ 64) : normSq s side ≤ 64 := by
   · exact h
   · have := flipV_le s; omega
 
-theorem bbOfPiece_lt (board : List Nat) (pc : Nat) (h : board.length ≤ 64) : bbOfPiece board pc < 2 ^ 64 := by
+theorem bbOfPiece_lt_pow (board : List Nat) (pc : Nat) (h : board.length ≤ 64) : bbOfPiece board pc < 2 ^ 64 := by
   apply Nat.lt_pow_two_of_testBit
   intro i hi
   rw [bbOfPiece_testBit]
@@ -85,7 +85,7 @@ theorem egStrong_bound (e : EG) (p : Position) (hwf : Spec.wf (absPos p) = true)
   have mR := mul_bound_abs (pvEg ROOK) (absI (pvEg ROOK)) ((countOf p.board (mkPiece strong ROOK) : Nat) : Int) 10 hR.1 hR.2.1 (by omega) (by omega)
   have mQ := mul_bound_abs (pvEg QUEEN) (absI (pvEg QUEEN)) ((countOf p.board (mkPiece strong QUEEN) : Nat) : Int) 9 hQ.1 hQ.2.1 (by omega) (by omega)
   have hck : ∀ c k, c ≤ 1 → k ≤ 6 → (BBs.of p).ck c k < 2 ^ 64 := fun c k hc hk => by
-    rw [ck_eq p c k hc hk]; exact bbOfPiece_lt _ _ (by omega)
+    rw [ck_eq p c k hc hk]; exact bbOfPiece_lt_pow _ _ (by omega)
   have hweak : 1 - strong ≤ 1 := by omega
   have hksq := kingSq_le p.board strong
   have hwsq := kingSq_le p.board (1 - strong)
